@@ -33,16 +33,21 @@ pub struct Case { pub name: String, pub mirror: bool, pub reorder: Option<u32>, 
     /// equivariant Reidemeister I moves (position among the labels as a 16-bit fraction, kind), applied in order
     #[serde(default)] pub kinks: Vec<(u16, u8)>,
     /// kinks that would take the diagram beyond this many crossings are skipped (cube of the cone: 2^n vertices)
-    #[serde(default = "default_cap")] pub cap: u8 }
+    #[serde(default = "default_cap")] pub cap: u8,
+    /// Some(knot name from the general table): the base diagram is K # rho(K) (Dg::sym_double: no crossing on the axis) instead of `name`
+    #[serde(default)] pub double: Option<String> }
 fn default_cap() -> u8 { 10 }
 
 
 pub struct Loaded { pub l: InvLink, pub dg: Dg, pub rho: BTreeMap<usize, usize>, pub base: usize, pub kinks_on: usize, pub kinks_off: usize }
 
 fn load(c: &Case) -> Result<Loaded, String> {
-    let base = InvLink::load(&c.name).map_err(|e| format!("{e}"))?;
-    let pd: Vec<[usize; 4]> = base.link().data().iter().map(|x| *x.edges()).collect();
-    let mut dg = Dg::from_pd(&pd);
+    let mut dg = match &c.double {
+        Some(k) => pool_get(k).ok_or_else(|| format!("no pool entry {k}"))?.sym_double()?,
+        None => { let base = InvLink::load(&c.name).map_err(|e| format!("{e}"))?;
+            let pd: Vec<[usize; 4]> = base.link().data().iter().map(|x| *x.edges()).collect();
+            Dg::from_pd(&pd) }
+    };
     let n = dg.labels().len();
     let mut rho: BTreeMap<usize, usize> = dg.labels().into_iter().map(|e| (e, (n + 1 - e) % n + 1)).collect();
     let mut bp = 1usize;
@@ -175,7 +180,7 @@ fn run_case(c: &Case) -> Chk<Pass> {
     let cone = build_cone(&dg, &ld.rho, ld.base, reduced).map_err(|e| Bad::Fail(format!("harness: {e} for {what}")))?;
     if std::env::var("YV_TIME").is_ok() { eprintln!("build_cone {:?} gens {}", t00.elapsed(), cone.cube.total_gens()); }
     let mut pass = Pass::new().label(format!("mode:{:?}", c.mode)).label_if(c.mirror, "mirror").label_if(c.reorder.is_some(), "reordered").label_if(reduced, "reduced")
-        .label_if(ld.kinks_on > 0, "kink-on-axis").label_if(ld.kinks_off > 0, "kink-pair-off-axis").label(format!("crossings:{}", dg.n()));
+        .label_if(ld.kinks_on > 0, "kink-on-axis").label_if(ld.kinks_off > 0, "kink-pair-off-axis").label(format!("crossings:{}", dg.n())).label_if(c.double.is_some(), "K#rho(K)-no-on-axis-crossing");
     let f2 = |b: bool| FF2::from(b as i64);
     let kinked = ld.kinks_on + ld.kinks_off > 0;
     match c.mode {
@@ -268,7 +273,7 @@ impl Prop for C19 {
     type Case = Case;
     const ID: &'static str = "C19";
     fn rule() -> String {
-        "case = (one of the 23 built-in strongly invertible diagrams, optionally changed by up to 3 generated equivariant Reidemeister I moves (a kink on an on-axis edge, or a kink on an off-axis edge together with its image kink; explicit edge involution passed to InvLink::new; at most 10 crossings quick, 11 thorough), optionally mirrored, optionally with its crossings listed in a generated order (same symmetric numbering), (h,t) in F2^2 or h = H over F2[H], reduced (t = 0), threads, mode). \
+        "case = (one of the 23 built-in strongly invertible diagrams or (one in 10) the equivariant connected sum K # rho(K) of a table knot K with <= 5 crossings, a diagram with no crossing on the axis, optionally changed by up to 3 generated equivariant Reidemeister I moves (a kink on an on-axis edge, or a kink on an off-axis edge together with its image kink; explicit edge involution passed to InvLink::new; at most 10 crossings quick, 11 thorough), optionally mirrored, optionally with its crossings listed in a generated order (same symmetric numbering), (h,t) in F2^2 or h = H over F2[H], reduced (t = 0), threads, mode). \
          ConeF2 / ConeF2Bigraded: KhIComplex over F2 satisfies d.d = 0 and its homology dimensions per degree (per bidegree for h = t = 0) equal those of the harness's own cone d(Bx) = B dx + Q(x + tau x), d(Qx) = Q dx on its own cube, with tau induced by the edge involution (e -> (n+1-e) mod n + 1 on the table diagrams, extended over the kinks; tau d = d tau is checked in the oracle); \
          ConeF2H: over F2[H], every torsion order is a power of H, rank = cone dimension at H = 1, and for k = 1 .. (largest exponent + 1): k rank + sum min(e_j(i), k) + sum min(e_j(i+1), k) = dim_F2 of the homology of the cone over F2[H]/(H^k) (which determines the exponents; only k = 1 when the expanded cube exceeds 80 000 generators); \
          SymKh: SymTngBuilder::build_kh_complex homology == KhComplex of the underlying knot == the cube; \
@@ -280,10 +285,11 @@ impl Prop for C19 {
         let cap: u8 = tier.pick(10, 11);
         let mode = prop_oneof![4 => Just(Mode::ConeF2), 2 => Just(Mode::ConeF2Bigraded), 2 => Just(Mode::ConeF2H), 2 => Just(Mode::SymKh), 2 => Just(Mode::Ssi)];
         let kinks = prop_oneof![2 => Just(vec![]), 3 => prop::collection::vec((any::<u16>(), 0u8..4), 1..=3)];
-        (prop::sample::select(NAMES.to_vec()), any::<bool>(), prop::option::weighted(0.6, any::<u32>()), any::<bool>(), any::<bool>(), any::<bool>(), mode, any::<u8>(), kinks)
-            .prop_map(move |(name, mirror, reorder, h, t, reduced, mode, threads, kinks)| Case { name: name.to_string(), mirror, reorder, h, t, reduced, mode, threads, kinks, cap }).boxed()
+        let double = prop_oneof![9 => Just(None), 1 => prop::sample::select(vec!["3_1", "4_1", "5_1", "5_2"]).prop_map(|s| Some(s.to_string()))];
+        (prop::sample::select(NAMES.to_vec()), any::<bool>(), prop::option::weighted(0.6, any::<u32>()), any::<bool>(), any::<bool>(), any::<bool>(), mode, any::<u8>(), kinks, double)
+            .prop_map(move |(name, mirror, reorder, h, t, reduced, mode, threads, kinks, double)| Case { name: name.to_string(), mirror, reorder, h, t, reduced, mode, threads, kinks, cap, double }).boxed()
     }
-    fn cases(tier: Tier) -> u32 { tier.pick(1_500, 20_000) }
+    fn cases(tier: Tier) -> u32 { tier.pick(1_500, 10_000) }
     fn shards(tier: Tier) -> usize { tier.pick(8, 16) }
     fn replay_repeats() -> usize { 5 }
     fn run(case: &Case, _ctx: &Ctx) -> Outcome { to_outcome(run_case(case)) }
